@@ -64,8 +64,9 @@ def make_system(name):
 
 PLANS = {
     'quick': [('OPS', 6, 0), ('OPS', 4, 1), ('OPS', 3, 2), ('OPS2', 4, 1), ('OPS@twins', 2, 1), ('OPS@selfpair', 2, 1), ('OPS@stale_ep', 2, 1)],
-    'thorough': [('OPS', 7, 0), ('OPS', 6, 1), ('OPS', 5, 2), ('OPS2', 5, 1), ('OPS2', 4, 2), ('coreLang', 4, 1),
-                 ('OPS@twins', 3, 2), ('OPS@selfpair', 3, 2), ('OPS@stale_ep', 3, 2)],
+    # (levels grow about tenfold per call: sized for roughly 2.5 million states, half an hour on 16 cores)
+    'thorough': [('OPS', 7, 0), ('OPS', 5, 1), ('OPS', 4, 2), ('OPS2', 5, 1), ('OPS2', 3, 2), ('coreLang', 3, 1),
+                 ('OPS@twins', 3, 1), ('OPS@selfpair', 3, 1), ('OPS@stale_ep', 3, 1)],
 }
 
 
